@@ -47,7 +47,9 @@ func cmpFloat(op string, a, b float64) bool {
 func (p *c12) NumCases(tier string) int {
 	n := len(c12Pool) + 8
 	if tier == "thorough" {
-		n += 3000
+		n += 5000
+	} else {
+		n += 300
 	}
 	return n
 }
